@@ -251,7 +251,7 @@ func FieldAddrRef(fa *ssa.FieldAddr) FieldRef {
 	n, s := derefStruct(fa.X.Type())
 	name := ""
 	if s != nil && fa.Field < s.NumFields() {
-		name = s.Field(fa.Field).Name()
+		name = canonFieldName(n, s, fa.Field)
 	}
 	return FieldRef{n, name, fa.Field}
 }
@@ -261,7 +261,7 @@ func FieldValRef(f *ssa.Field) FieldRef {
 	n, s := derefStruct(f.X.Type())
 	name := ""
 	if s != nil && f.Field < s.NumFields() {
-		name = s.Field(f.Field).Name()
+		name = canonFieldName(n, s, f.Field)
 	}
 	return FieldRef{n, name, f.Field}
 }
